@@ -255,10 +255,10 @@ def r5(idx, rep):
     want = {"delimiter": "self.result.csvpath.delimiter", "quotechar": "self.result.csvpath.quotechar"}
     fl = idx.method("CsvLineSpooler", "load_if")
     w = [c for c in walk_no_nested(fl.node) if isinstance(c, ast.Call) and call_name(c) == "writer"]
-    kw = K.kw_text(fl, w[0]) if len(w) == 1 else None
+    kw = K.kw_values(idx, fl, w[0]) if len(w) == 1 else None
     fn = idx.method("CsvLineSpooler", "next")
     r = [c for c in walk_no_nested(fn.node) if isinstance(c, ast.Call) and call_name(c) == "DataFileReader"]
-    kr = {k: v for k, v in K.kw_text(fn, r[0]).items() if k in ("delimiter", "quotechar")} if len(r) == 1 else None
+    kr = {k: v for k, v in K.kw_values(idx, fn, r[0]).items() if k in ("delimiter", "quotechar")} if len(r) == 1 else None
     rep.check(kw == kr and kw is not None, "R5", f"{fl.file}::CsvLineSpooler writer and reader dialect agree",
               f"data.csv is written with {kw or 'the default dialect'} and read back with {kr}: with a non-default delimiter/quotechar the collected lines do not parse back", K.where(fl, fl.node))
     fw = idx.method("ResultSerializer", "_save")
@@ -277,7 +277,7 @@ def r5(idx, rep):
                           "RuntimeDataCollector.collect": lambda i, c, r, a, k: None, "result.get_printouts": lambda i, c, r, a, k: {}})
     st = {"result.csvpath.delimiter": ";", "result.csvpath.quotechar": "'", "result.lines": [["a"]], "result.unmatched": [["u"]], "result.errors": [],
           "result.csvpath": Obj("CP"), "CP.delimiter": ";", "CP.quotechar": "'", "CP.metadata": {}, "result.variables": {}}
-    fs_, pss = K.sym_result(idx, "ResultSerializer", "save_result", args={"result": Obj("result")}, store=st)
+    fs_ = idx.method("ResultSerializer", "save_result")
     pss = it.run_all(fs_, args={"result": Obj("result")}, store=st)
     okd = len(pss) == 1 and pss[0].result[0] == "return" and len(seen) == 2 and all(kw == {"delimiter": ";", "quotechar": "'"} for kw in seen)
     rep.check(okd, "R5", f"{fs_.file}::ResultSerializer.save_result writes data files in the member's dialect (in context)",
@@ -380,13 +380,15 @@ def empty_collection(idx, rep, rid):
 def r6(idx, rep):
     ff = idx.method("ResultRegistrar", "file_fingerprints")
     rep.analysed(ff)
-    names = None
-    for n in walk_no_nested(ff.node):
-        if isinstance(n, ast.For) and isinstance(n.iter, (ast.List, ast.Tuple)):
-            names = sorted(e.value for e in n.iter.elts if isinstance(e, ast.Constant))
     want = sorted(["data.csv", "meta.json", "unmatched.csv", "printouts.txt", "errors.json", "vars.json"])
-    rep.check(names == want, "R6", f"{ff.file}::ResultRegistrar.file_fingerprints coverage", f"fingerprints cover {names}, documented {want}", K.where(ff, ff.node))
     from . import store_model as SMo
+    # coverage: with all six member files on the model disk, every one of them is fingerprinted
+    fsall = [SMo.MFS()]
+    for nm in want + ["manifest.json", "stray.tmp"]:
+        fsall[0].put(f"INST/{nm}", f"content of {nm}")
+    _, psa = K.sym_result(idx, "ResultRegistrar", "file_fingerprints", handlers=SMo.handlers(fsall), inline={"ResultRegistrar._fingerprint"}, store={"self.result_path": "INST"})
+    names = sorted(psa[0].result[1]) if len(psa) == 1 and psa[0].result[0] == "return" and isinstance(psa[0].result[1], dict) else None
+    rep.check(names == want, "R6", f"{ff.file}::ResultRegistrar.file_fingerprints coverage", f"with all six member files present fingerprints cover {names}, documented {want}", K.where(ff, ff.node))
     fsx = [SMo.MFS()]
     present = {"data.csv": "a,b\n", "meta.json": "{}", "errors.json": "[]", "vars.json": "{}"}
     for nm, c in present.items():
